@@ -236,7 +236,9 @@ NextLink ==
 (* round-tripped through its own MarshalBinary (RReload); kind "schnorr-scheme": one            *)
 (* schnorr sign.Scheme object used with several private keys.  Every signature must be the      *)
 (* one of the CURRENT key (EdDSA: byte-equal to crypto/ed25519 for that key's seed), whatever   *)
-(* the object signed, marshalled or held before.                                                 *)
+(* the object signed, marshalled or held before.  Messages travel in ONE caller-owned buffer that *)
+(* the replayer overwrites in place before every call (same-length and different-length contents):*)
+(* the message of a step is what the buffer holds at call time.                                    *)
 RKeys == {1, 2}
 RMsgs == {1, 2}
 RKinds == (IF "eddsa" \in Schemes THEN {"eddsa"} ELSE {}) \cup (IF "schnorr-ed" \in Schemes THEN {"schnorr-scheme"} ELSE {})
